@@ -20,6 +20,7 @@ use crate::proto::*;
 use crate::{Ctx, Suite};
 
 pub fn run<C: Suite>(ctx: &mut Ctx) {
+    partial_n5::<C>(ctx);
     let slow = C::NAME == "ed448";
     let heavy = slow || C::NAME == "p256";
     let ns: Vec<u16> = if ctx.quick() && heavy { vec![3] } else { vec![3, 4] };
@@ -57,6 +58,22 @@ pub fn run<C: Suite>(ctx: &mut Ctx) {
                     ctx.guard(|ctx| common_sets::<C>(ctx, n, t, kind, &ids));
                 }
             }
+        }
+    }
+}
+
+/// thorough only, fast suites: n = 5, t = 3, receivers #0 and #4 — beyond the exhaustive scope, same model
+pub fn partial_n5<C: Suite>(ctx: &mut Ctx) {
+    let fastc = matches!(C::NAME, "ed25519" | "ristretto255" | "secp256k1" | "secp256k1-tr");
+    if ctx.quick() || !fastc {
+        return;
+    }
+    let mut p = ctx.pick_global("ids-5-3-default");
+    let ids = identifiers::<C>("default", 5, &mut p);
+    for r in [0usize, 4] {
+        if ctx.item(&format!("n=5 t=3 ids=default receiver#{r} (partial scope)")) {
+            let ids = ids.clone();
+            ctx.guard(|ctx| receiver::<C>(ctx, 5, 3, 3, "default", &ids, r));
         }
     }
 }
